@@ -28,6 +28,12 @@ def rp(pkg, test, q, t, **kw):
 
 PURE_ASSUME = ["pgregory.net/rapid v1.3.0 generation/shrinking; Go 1.23.5", "the harness's own YAML emitter / JWT builder are correct (independent of the code under test)"]
 
+def STORM(test):
+    return {"pkg": "stress", "test": test, "race": True,
+            "quick": {"checks": 250, "shards": 4, "shrink": "10s", "timeout": "10m", "env": {"GORACE": "halt_on_error=0"}},
+            "thorough": {"checks": 6000, "shards": 8, "shrink": "60s", "timeout": "1h", "env": {"GORACE": "halt_on_error=0"}}}
+
+
 def BURST(test):
     return {"pkg": "stress", "test": test, "race": True,
             "quick": {"checks": 400, "shards": 2, "shrink": "10s", "timeout": "10m", "env": {"GORACE": "halt_on_error=0"}},
@@ -37,14 +43,14 @@ def BURST(test):
 PROPS = {
     "C01": {"level": "exploration", "assumptions": SIM_ASSUME, "parts": [sim("TestC01"), BURST("TestC01Burst")]},
     "C02": {"level": "exploration", "assumptions": SIM_ASSUME, "parts": [sim("TestC02", q=(300, 4), t=(4000, 16)), sim("TestC02Graphs", q=(600, 4), t=(20000, 16))]},
-    "C03": {"level": "exploration", "assumptions": SIM_ASSUME, "parts": [sim("TestC03")]},
+    "C03": {"level": "exploration", "assumptions": SIM_ASSUME, "parts": [sim("TestC03"), STORM("TestC03Storm")]},
     "C04": {"level": "exploration", "assumptions": SIM_ASSUME, "parts": [sim("TestC04"), rp("procs", "TestC04Real", (12, 2), (300, 8), helpers=["cmd/vhelper"])]},
     "C05": {"level": "exploration", "assumptions": SIM_ASSUME, "parts": [sim("TestC05"), BURST("TestC05Burst")]},
-    "C06": {"level": "exploration", "assumptions": SIM_ASSUME, "parts": [sim("TestC06")]},
+    "C06": {"level": "exploration", "assumptions": SIM_ASSUME, "parts": [sim("TestC06"), STORM("TestC06Storm")]},
     "C07": {"level": "exploration", "assumptions": SIM_ASSUME, "parts": [sim("TestC07Sim"),
                                                                                {"pkg": "sim", "test": "TestC07Real", "quick": {"checks": 4, "shards": 1, "shrink": "5s", "timeout": "10m"}, "thorough": {"checks": 60, "shards": 4, "shrink": "30s", "timeout": "2h"}},
                                                                                BURST("TestC07Burst")]},
-    "C08": {"level": "exploration", "assumptions": SIM_ASSUME, "parts": [sim("TestC08", q=(300, 4), t=(4000, 16)), rp("procs", "TestC08Real", (12, 2), (300, 8), helpers=["cmd/vhelper"])]},
+    "C08": {"level": "exploration", "assumptions": SIM_ASSUME, "parts": [sim("TestC08", q=(300, 4), t=(4000, 16)), sim("TestC08Graphs", q=(500, 4), t=(12000, 16)), rp("procs", "TestC08Real", (12, 2), (300, 8), helpers=["cmd/vhelper"])]},
     "C09": {"level": "fault_enumeration", "min_nontrivial": 10,
             "assumptions": ["the kernel's rename(2) is atomic; durability against power loss (no fsync) is outside the statement", "strace syscall fault injection (thorough and quick fault part); SIGKILL as the crash model", "snapshots are produced by a pure function shared by the saving child and the checking parent"],
             "parts": [rp("storefs", "TestC09Readers", (25, 2), (300, 8), helpers=["cmd/vhelper"]), rp("storefs", "TestC09Kill", (80, 2), (1500, 8), helpers=["cmd/vhelper"]),
